@@ -1,8 +1,8 @@
 #!/bin/bash
 # tools/regress_seeds.sh [parallelism] : run every kept seeded change against its own property's quick check (scratch worktrees); summary in build/seed_regression.txt
 cd "$(dirname "$0")/.."; mkdir -p build
-ls seeded | xargs -P ${1:-5} -I{} sh -c 'tools/check_seed.sh {} quick > build/seedreg_{}.log 2>&1'
-for s in $(ls seeded); do
+ls -d seeded/*/ | xargs -n1 basename | xargs -P ${1:-5} -I{} sh -c 'tools/check_seed.sh {} quick > build/seedreg_{}.log 2>&1'
+for s in $(ls -d seeded/*/ | xargs -n1 basename); do
   v=$(grep -c "VIOLATION" build/seedreg_$s.log); nf=$(grep -c "no-failing-input-found" build/seedreg_$s.log); br=$(grep -c "broken\[proof\]" build/seedreg_$s.log); bc=$(grep -c "broken\[correspondence\]" build/seedreg_$s.log)
   echo "$s violations=$v (no-failing-input=$nf) broken_proofs=$br broken_correspondence=$bc"
 done > build/seed_regression.txt
